@@ -238,6 +238,20 @@ ShiftableFrom(stack, X) ==
   ELSE LET a == Action[s + 1][X] IN
        IF a >= 0 THEN TRUE ELSE ShiftableFrom(RedStack(stack, -a), X)
 
+\* the state stack after shifting X from `stack` (<<>> if X cannot be shifted), and sequences of tokens
+RECURSIVE StackAfter(_, _)
+StackAfter(stack, X) ==
+  LET s == Last(stack) IN
+  IF Defaulted[s + 1] # 0 THEN StackAfter(RedStack(stack, -Defaulted[s + 1]), X)
+  ELSE IF X \notin DOMAIN Action[s + 1] THEN <<>>
+  ELSE LET a == Action[s + 1][X] IN
+       IF a > 0 THEN Append(stack, a) ELSE IF a = 0 THEN stack ELSE StackAfter(RedStack(stack, -a), X)
+
+RECURSIVE ShiftableSeq(_, _)
+ShiftableSeq(stack, seq) ==
+  IF seq = <<>> THEN TRUE
+  ELSE LET st == StackAfter(stack, Head(seq)) IN st # <<>> /\ ShiftableSeq(st, Tail(seq))
+
 ----------------------------------------------------------------------------
 (* Table-free derivability: CYK-style least fixpoint over items <<sym, i, j>>  *)
 (* meaning  sym =>* input[i+1 .. j].  Independent of Action/Goto.             *)
